@@ -603,6 +603,18 @@ def execute(item):
                 res["drift"].append(("merge-vehicle", "merging did not produce a multi-library schema: %r" % s2.library))
             res["problems"] += refusals(s2, os.path.join(work, "mm"), HedFileError)
             res["saves"] += 9
+            # the other library may also arrive from a file in UNMERGED form (header unmerged="True"), in each format
+            for fmt in (("xml", "mediawiki")[item["id"] % 2],):       # (a TSV folder cannot be merged into a loaded schema: refused by design)
+                up = _unmerged_score(fmt, work)
+                try:
+                    s3 = load_schema(up, schema=copy.deepcopy(s))
+                except Exception as ex:  # noqa
+                    res["drift"].append(("merge-vehicle", "merging the unmerged %s file of the other library failed: %s" % (fmt, _exc(ex))))
+                    continue
+                if "," in s3.library:
+                    res["problems"] += [(k + ":from-unmerged-" + fmt, t + " (second library merged in from its unmerged %s file)" % fmt)
+                                        for k, t in refusals(s3, os.path.join(work, "mu"), HedFileError)]
+                    res["saves"] += 9
             return res
         kinds = {tuple(k.split(":", 1)): v for k, v in conc["kinds"].items()}
         mopts = [True] if std else [True, False]
@@ -725,6 +737,17 @@ def history_case(arg):
         return idx, prob
     finally:
         shutil.rmtree(root, ignore_errors=True)
+
+
+def _unmerged_score(fmt, work):
+    """the other library (score 2.0.0) saved in unmerged form, once per worker and format"""
+    key = "uscore:" + fmt
+    if key not in _G:
+        from hed.schema import load_schema
+        sc = load_schema(_G["score_path"])
+        base = os.path.join(os.path.dirname(work.rstrip("/")), "uscore_%d" % os.getpid())
+        _G[key] = _save(sc, fmt, False, base)
+    return _G[key]
 
 
 # ----------------------------------------------------------------------------------------------------------------
